@@ -143,7 +143,9 @@ pub fn derive(case: &GlmCase) -> Option<Derived> {
     let scale = SCALES[(case.scale_ix as usize).min(1)];
     let sigma = NOISE[(case.noise_ix as usize).min(2)];
     // identity link with power >= 1 needs positive means: the model must have an intercept to start inside the domain
-    let intercept = case.intercept || (link == Lk::Identity && power >= 1.0);
+    let yexp_raw = YSCALE_EXP[(case.yscale_ix as usize).min(YSCALE_EXP.len() - 1)];
+    // ... and a log/logit model can follow a change of the target scale only through its intercept (s ln 10)
+    let intercept = case.intercept || (link == Lk::Identity && power >= 1.0) || (link != Lk::Identity && yexp_raw != 0);
     let mut y = vec![0.0; n];
     for (i, r) in case.rows.iter().enumerate() {
         let lin: f64 = (0..p).map(|j| r.x[j] * 0.4 * at(&case.w, j).clamp(-3.0, 3.0)).sum();
@@ -160,7 +162,7 @@ pub fn derive(case: &GlmCase) -> Option<Derived> {
             Lk::Logit => (model::sigmoid(lin) * (sigma * e).exp()).clamp(0.02, 0.98),
         };
     }
-    let mut yexp = YSCALE_EXP[(case.yscale_ix as usize).min(YSCALE_EXP.len() - 1)];
+    let mut yexp = yexp_raw;
     if link == Lk::Logit && yexp > 0 {
         yexp = 0;
     }
@@ -356,6 +358,12 @@ pub fn check(case: &GlmCase, obs: &mut Obs) {
     } else {
         model::Judged { verdict: Verdict::Undefined, gnorm: f64::NAN, bound: 0.0, f: f64::NAN, gap: None }
     };
+    if std::env::var("C12_DEBUG").is_ok() {
+        eprintln!("DEBUG glm: y = {:?}", d.y); // manual child runs only (stderr of real children is discarded)
+        eprintln!("DEBUG glm: x[0..3] = {:?} shrunk_steps {}", &d.x[..d.x.len().min(3)], d.shrunk_steps);
+        eprintln!("DEBUG glm: start {:?} returned {:?}", start_point(&d.y, d.p, d.intercept, d.link), theta);
+        eprintln!("DEBUG glm: F {:e} grad {:?} curv {:e} verdict {:?} gap {:?}", obj.value(&theta), obj.grad(&theta), obj.curv(&theta), j.verdict, j.gap);
+    }
     let mut j = j;
     if j.verdict == Verdict::NotStationary {
         // stopped on its own or cut off by max_iter? (same parameters with twice the iteration limit = stopped on its own)
@@ -373,6 +381,10 @@ pub fn check(case: &GlmCase, obs: &mut Obs) {
     match j.verdict {
         Verdict::IterationCap => {
             obs.class("glm_stopped_by_max_iterations");
+            judged = false;
+        }
+        Verdict::CurvatureOverflow => {
+            obs.class("glm_curvature_overflow_not_judged");
             judged = false;
         }
         Verdict::Stationary => {
